@@ -849,6 +849,7 @@ void verif::verif_case(Rng & rng, long idx, const std::string & tier) {
               emit_greedy_mdp(Q, ns); break; }
     case 2: { int E; std::string kind; auto q = genQAny(rng, n, E, kind); statQ("softmax", kind);
               double t = kT[rng.below(8)]; if (rng.coin(1, 8)) t = std::ldexp(1.0, -(int)rng.range(4, 9));
+              if (rng.coin(1, 10)) t = std::ldexp(1.0, -19);      // 1.9e-6: just above the delegation threshold
               emit_softmax_bandit(q, t, ns);
               if (t > 1e-6) { double c = std::ldexp(rng.coin() ? 1.0 : -1.0, E ? E - (int)rng.range(1, 3) : (int)rng.range(-2, 4)); emit_shift_softmax(q, t, c, 0); }
               break; }
